@@ -10,6 +10,7 @@
                            afterwards (for Fast-HotStuff, which has no lock, l = 1)
      S blk                 Store(blk) only
      N blks                the sender's RequestBlock now finds exactly these blocks
+     L hash                the lock field (bLock / locked) holds the block with this hash
      Q hashes              Blockchain.LocalGet succeeds for exactly these hashes (the store is
                            one block per hash, so size + membership is equality) *)
 From HS Require Export Base.Prelude Rules.RulesModel.
@@ -24,7 +25,9 @@ Inductive ev :=
 | C (b : block) (c : option hash) (l : hash)
 | S (b : block)
 | N (net : list block)      (* from now on the peers can supply exactly these blocks *)
-| Q (stored : list hash).   (* LocalGet succeeds for exactly these hashes *)
+| Q (stored : list hash)    (* LocalGet succeeds for exactly these hashes *)
+| L (l : hash).             (* the lock field holds the block with this hash (read at any time,
+                               in particular right after a VoteRule call, which must not move it) *)
 
 Definition case := (ruleset * list ev)%type.
 
@@ -39,6 +42,7 @@ Definition nobs_ok (e : ev) (o : nobs) : bool :=
   | S _, NONone => true
   | N _, NONone => true
   | Q hs, NOStored f => stored_eqb f hs
+  | L _, NOStored _ => true   (* the lock itself is compared in [check_run] *)
   | _, _ => false
   end.
 
@@ -49,6 +53,13 @@ Definition ev_step (e : ev) : nstep :=
   | S b => NStore b
   | N net => NNet net
   | Q _ => NQuery
+  | L _ => NQuery
+  end.
+
+Definition lock_ok (e : ev) (st : nstate) : bool :=
+  match e with
+  | L l => N.eqb (b_hash (snd (fst st))) l
+  | _ => true
   end.
 
 Fixpoint check_run (rs : ruleset) (st : nstate) (evs : list ev) : bool :=
@@ -56,7 +67,7 @@ Fixpoint check_run (rs : ruleset) (st : nstate) (evs : list ev) : bool :=
   | [] => true
   | e :: r =>
       let '(st', o) := do_nstep rs st (ev_step e) in
-      nobs_ok e o && check_run rs st' r
+      nobs_ok e o && lock_ok e st && check_run rs st' r
   end.
 
 Definition check_case (c : case) : bool :=
@@ -85,4 +96,12 @@ Example check_case_lock_target :
     [C (B 2 1 1 1 0) None 1; C (B 3 2 2 2 1) None 1; S (B 5 4 4 4 3);
      V 5 (B 6 5 5 5 4) None false; Q [1; 2; 3; 5];
      N [B 4 3 3 3 2]; V 5 (B 6 5 5 5 4) None true; Q [1; 2; 3; 5; 4]]) = true.
+Proof. vm_compute. reflexivity. Qed.
+
+(* a missed fetch at depth 3 must not keep the lock behind: simple HotStuff, B2 (great-
+   grandparent of B5) missing, the lock still moves to B3 and the fork on B2... is refused *)
+Example check_case_depth3 :
+  check_case (Simple,
+    [S (B 2 1 1 1 0); S (B 3 9 3 9 2); S (B 4 3 4 3 3); C (B 5 4 5 4 4) None 3; L 3;
+     V 6 (B 6 2 6 2 1) None false; L 3]) = true.
 Proof. vm_compute. reflexivity. Qed.
